@@ -2887,7 +2887,14 @@ impl Node for XmlDocumentType {
     }
 
     fn parent_node(&self) -> Option<XmlNode> {
-        Some(XmlDocument::from(self.declaration.borrow().parent()).as_node())
+        // The declaration names its document whether or not it is still a child of it: the document
+        // is its parent only while this very node is the document's declaration.
+        let document = self.declaration.borrow().parent();
+        let listed = document
+            .borrow()
+            .document_declaration()
+            .is_some_and(|v| std::rc::Rc::ptr_eq(&v, &self.declaration));
+        listed.then(|| XmlDocument::from(document).as_node())
     }
 
     fn child_nodes(&self) -> XmlNodeList {
